@@ -493,7 +493,12 @@ class Arbiter:
 
         # create new pidfile
         if self.cfg.pidfile is not None:
-            self.pidfile = Pidfile(self.cfg.pidfile)
+            pidname = self.cfg.pidfile
+            if self.master_pid != 0:
+                # not promoted yet (see start()): the configured name
+                # still belongs to the old master
+                pidname += ".2"
+            self.pidfile = Pidfile(pidname)
             self.pidfile.create(self.pid)
 
         # set new proc_name
